@@ -7,6 +7,7 @@ import (
 	"path/filepath"
 	"sort"
 	"strings"
+	"sync"
 )
 
 // runCorpus (thorough tier): every must-fail mutant and every confirmed seeded change recorded for
@@ -51,26 +52,41 @@ func runCorpus(repo, P string) (ran int, caught int, missed []string, skipped []
 	}
 	sort.Slice(items, func(i, j int) bool { return items[i].name < items[j].name })
 	self, _ := os.Executable()
+	// four changes at a time (each check runs its own solver pool)
+	var mu sync.Mutex
+	var wg sync.WaitGroup
+	sem := make(chan struct{}, 4)
 	for _, it := range items {
-		scratch, err := os.MkdirTemp("", "goatvc-corpus-")
-		if err != nil {
-			continue
-		}
-		func() {
+		it := it
+		wg.Add(1)
+		sem <- struct{}{}
+		go func() {
+			defer wg.Done()
+			defer func() { <-sem }()
+			scratch, err := os.MkdirTemp("", "goatvc-corpus-")
+			if err != nil {
+				return
+			}
 			defer os.RemoveAll(scratch)
 			if exec.Command("rsync", "-a", "--exclude", ".git", repo+"/", scratch+"/").Run() != nil {
+				mu.Lock()
 				skipped = append(skipped, it.name+" (copy failed)")
+				mu.Unlock()
 				return
 			}
 			pc := exec.Command("patch", "-p1", "-s", "-i", it.patch)
 			pc.Dir = scratch
 			if pc.Run() != nil {
+				mu.Lock()
 				skipped = append(skipped, it.name+" (patch does not apply to this tree)")
+				mu.Unlock()
 				return
 			}
 			c := exec.Command(self, "check", "-repo", scratch, "-prop", P, "-no-evidence", "-tier", "quick")
 			c.Env = append(os.Environ(), "VERIF_DIR="+verifDir)
 			out, _ := c.CombinedOutput()
+			mu.Lock()
+			defer mu.Unlock()
 			ran++
 			if c.ProcessState != nil && c.ProcessState.ExitCode() == 1 && strings.Contains(string(out), "VIOLATION property="+P) {
 				caught++
@@ -79,5 +95,8 @@ func runCorpus(repo, P string) (ran int, caught int, missed []string, skipped []
 			}
 		}()
 	}
+	wg.Wait()
+	sort.Strings(missed)
+	sort.Strings(skipped)
 	return
 }
